@@ -24,6 +24,8 @@ DIRECTED = [
      [{'all': False, 'check': 'CheckECKeySmallDifference', 'batch': ['s1', 's2', 's3']},
       {'all': False, 'check': 'CheckECKeySmallDifference', 'batch': ['s3', 's4', 's1', 's2']},
       {'all': False, 'check': 'CheckECKeySmallDifference', 'batch': ['s2', 's1', 's4', 's3']}]),
+    ('rsa', 'lhw-suspicion-first', {'s1': 'lhwA', 's2': 'healthy', 's3': 'small'},
+     [{'all': False, 'check': 'CheckLowHammingWeight', 'batch': ['s1', 's2', 's3']}]),
     ('rsa', 'mixed-sizes', {'s1': 'small', 's2': 'pattern4096', 's3': 'healthy'},
      [{'all': False, 'check': 'CheckBitPatterns', 'batch': ['s1', 's2', 's3']}, {'all': True, 'check': 'ALL', 'batch': ['s3', 's1', 's2']}]),
     ('rsa', 'sizes', {'s1': 'small', 's2': 'healthy3072', 's3': 'fermat', 's4': 'sharedA'},
